@@ -44,7 +44,7 @@ theorem mapExprs?_eq {m : Cqm} (w : CqmCWF m) (f? : Expr → Option Expr) (f : E
   rw [h m.obj w.obj, mapOpt_eq _ (fun (k : Cons) => { k with e := f k.e }) m.cons
     (fun k hk => by rw [h k.e (w.cons k hk)]; rfl)]
 
-theorem mapExprs_wf {m : Cqm} (w : CqmCWF m) (f : Expr → Expr) (h : ∀ e, ExprWF e → ExprWF (f e)) :
+theorem mapExprs_cwf {m : Cqm} (w : CqmCWF m) (f : Expr → Expr) (h : ∀ e, ExprWF e → ExprWF (f e)) :
     CqmCWF (m.mapExprs f) := by
   refine ⟨h _ w.obj, ?_, w.lb_len, w.ub_len⟩
   intro k hk
@@ -53,7 +53,7 @@ theorem mapExprs_wf {m : Cqm} (w : CqmCWF m) (f : Expr → Expr) (h : ∀ e, Exp
   exact h _ (w.cons k0 hk0)
 
 theorem removeVarAtC_wf {m : Cqm} (w : CqmCWF m) (v : Nat) (hv : v < m.vt.length) : CqmCWF (m.removeVarAt v) := by
-  have w1 := mapExprs_wf w (·.reindex v) (fun e he => reindex_wf he v)
+  have w1 := mapExprs_cwf w (·.reindex v) (fun e he => reindex_wf he v)
   refine ⟨w1.obj, w1.cons, ?_, ?_⟩
   · show (Bqm.eraseIdx m.lb v).length = (Bqm.eraseIdx m.vt v).length
     rw [length_eraseIdx _ _ (by rw [w.lb_len]; exact hv), length_eraseIdx _ _ hv, w.lb_len]
@@ -70,9 +70,9 @@ theorem substituteAll?_eq {m : Cqm} (w : CqmCWF m) (v : Nat) (mu c : Rat) :
   mapExprs?_eq w _ _ (fun _ he => Expr.substitute?_eq he v mu c)
 
 theorem substituteAll_wf {m : Cqm} (w : CqmCWF m) (v : Nat) (mu c : Rat) : CqmCWF (m.substituteAll v mu c) :=
-  mapExprs_wf w _ (fun _ he => substitute_wf he v mu c)
+  mapExprs_cwf w _ (fun _ he => substitute_wf he v mu c)
 
-theorem modCons_wf {m : Cqm} (w : CqmCWF m) (c : Nat) (f : Cons → Cons) (h : ∀ k ∈ m.cons, ExprWF (f k).e) :
+theorem modCons_cwf {m : Cqm} (w : CqmCWF m) (c : Nat) (f : Cons → Cons) (h : ∀ k ∈ m.cons, ExprWF (f k).e) :
     CqmCWF (m.modCons c f) := by
   refine ⟨w.obj, ?_, w.lb_len, w.ub_len⟩
   intro k hk
@@ -96,7 +96,7 @@ theorem cstep?_eq {m : Cqm} (w : CqmCWF m) (op : COp) (hp : COp.Pre m op) :
     rw [stepE?_eq w.obj m.vt op]; rfl
   | consOp c op =>
     have hc : c < m.cons.length := hp
-    refine ⟨?_, modCons_wf w c _ (fun k hk => stepE_wf (w.cons k hk) m.vt op)⟩
+    refine ⟨?_, modCons_cwf w c _ (fun k hk => stepE_wf (w.cons k hk) m.vt op)⟩
     show (match m.cons[c]? with | some k => _ | none => none) = _
     rw [List.getElem?_eq_getElem hc]
     simp only []
@@ -115,14 +115,14 @@ theorem cstep?_eq {m : Cqm} (w : CqmCWF m) (op : COp) (hp : COp.Pre m op) :
   | assignConstraint c d =>
     have hc : c < m.cons.length := hp.1
     have hd : d < m.cons.length := hp.2
-    refine ⟨?_, modCons_wf w c _ (fun k hk => getD_cons_wf w d k hk)⟩
+    refine ⟨?_, modCons_cwf w c _ (fun k hk => getD_cons_wf w d k hk)⟩
     show (match m.cons[c]?, m.cons[d]? with | some _, some _ => _ | _, _ => none) = _
     rw [List.getElem?_eq_getElem hc, List.getElem?_eq_getElem hd]
   | swapConstraints c d =>
     have hc : c < m.cons.length := hp.1
     have hd : d < m.cons.length := hp.2
-    have w1 := modCons_wf w c (fun k => (m.cons[d]?).getD k) (fun k hk => getD_cons_wf w d k hk)
-    refine ⟨?_, modCons_wf w1 d _ (fun k hk => ?_)⟩
+    have w1 := modCons_cwf w c (fun k => (m.cons[d]?).getD k) (fun k hk => getD_cons_wf w d k hk)
+    refine ⟨?_, modCons_cwf w1 d _ (fun k hk => ?_)⟩
     · show (match m.cons[c]?, m.cons[d]? with | some _, some _ => _ | _, _ => none) = _
       rw [List.getElem?_eq_getElem hc, List.getElem?_eq_getElem hd]
     · cases h : m.cons[c]? with
